@@ -145,6 +145,20 @@ def check_trim(crate, rep, cfg):
     else:
         rep.ok("C08.PEEK", key, "%s:%s" % (tok.j.get("file"), tok.j.get("line")),
                "Token variants carrying a start-trim bool = %s" % sorted(start_like))
+    # every arm that hands on literal text (Content, RawContent) does the look-ahead: its own region contains a peek site
+    TEXT_TOKENS = {"Content", "RawContent"}
+    have = {v["name"] for v in tok.variants}
+    if not TEXT_TOKENS <= have:
+        rep.anchor_missing("C08.PEEK", "Token::{Content,RawContent}")
+    peek_blocks = {pbb for pbb, pt in peeks}
+    for bb, tgt, f in arms:
+        for v in sorted(set(f[3]) & TEXT_TOKENS):
+            if len(f[3]) > 2:
+                continue
+            region = body.reach_from(tgt, removed_blocks=frozenset([bb]))
+            has = any(body.dominates(tgt, pb) and pb in region for pb in peek_blocks)
+            rep.add("C08.PEEK", "C08.PEEK:%s:text-arm-looks-ahead:%s" % (body.path, v), has, body.where(tgt), "the `%s` arm of the whitespace filter looks at the next token "
+                    "(peek) so that a following start marker with `-` trims the end of this text" % v + ("" if has else " — VIOLATED: a `-` on the tag after this text has no effect"))
     ef = EdgeFacts(body, crate)
     for n, (pbb, pt) in enumerate(peeks):
         dest = pl_str(pt["dest"])
